@@ -25,6 +25,8 @@ LISTS = {
     'nested_obs': [['D1', 'A2'], ['B2', 'C1', 'B1'], ['B:B', 'D1'], ['A1:D2', 'C2']],
     'cse_obs': [['D2', 'E1'], ['D1:E2', 'A1'], ['D:D', 'D1']],
     'offset_obs': [['C4', 'B3'], ['B:B', 'C3'], ['3:3', 'B1:B4']],
+    'beyond_obs': [['A4', 'A:A'], ['A:A', 'A4'], ['D1', '1:1', 'B1'], ['E:E', 'E2'], ['E1', 'C1']],
+    'onecell_obs': [['A:A', 'A1'], ['B1', 'A:A'], ['1:1', 'C1']],
     'cse_opq': [['D2', 'B1'], ['B1:B3', 'D3'], ['D1:D3', 'B2']],
     'table_opq': [['B3', 'C2'], ['A2:B4', 'B2'], ['B4', 'B2', 'B3']],
 }
@@ -33,6 +35,8 @@ LISTS = {
 def member_rows(wb, node):
     if node in wb.get('aliases', {}):
         node = wb['aliases'][node]
+        if ':' not in node:
+            return [[node]]      # an unbounded range which resolves to one cell
     if node in wb.get('ranges', {}):
         return wb['ranges'][node]
     if node in wb.get('cse', {}):
@@ -154,6 +158,8 @@ def run(tier, seed):
             for src in ('NoData', 'Stored'):
                 jobs.append((name, [2], ['A1'], src, seed, 120))
         jobs.append(('offset_obs', [2], ['B3'], 'NoData', seed, 120))
+        jobs.append(('beyond_obs', [2], [], 'NoData', seed, 60))
+        jobs.append(('onecell_obs', [2], ['A1'], 'NoData', seed, 24))
         jobs.append(('cse_obs', [2], ['A1'], 'Loaded', seed, 120))     # D63
         jobs.append(('cse_opq', [2], ['A1'], 'NoData', seed, 120))
         jobs.append(('table_opq', [5], ['A2'], 'NoData', seed, 120))
